@@ -215,6 +215,32 @@ let replay ?(skip_model = false) id what obs ~enc ~msg_of_sx ~dec ~res_of_sx ~in
    | _ -> ())
   end
 
+(* ---- names that are not valid UTF-8 (content family, kinds ending in -badutf8).  proto3 strings must be valid UTF-8 and
+   gogo Marshal refuses a message with such a string: binary Serialize returns an error.  The model identifies a string
+   with its byte list and has no such failure (assumption "names are valid UTF-8"), so these cases are outside the domain
+   of the property and only this outcome is compared.  The predicate is the definition of RFC 3629 / Go's utf8.Valid. *)
+let valid_utf8 (n : z list) : bool =
+  let rec go = function
+    | [] -> true
+    | b :: r when b < 0x80 -> go r
+    | b :: c1 :: r when b >= 0xc2 && b <= 0xdf && c1 land 0xc0 = 0x80 -> go r
+    | b :: c1 :: c2 :: r when b >= 0xe0 && b <= 0xef && c2 land 0xc0 = 0x80
+        && (if b = 0xe0 then c1 >= 0xa0 && c1 <= 0xbf else if b = 0xed then c1 >= 0x80 && c1 <= 0x9f else c1 land 0xc0 = 0x80) -> go r
+    | b :: c1 :: c2 :: c3 :: r when b >= 0xf0 && b <= 0xf4 && c2 land 0xc0 = 0x80 && c3 land 0xc0 = 0x80
+        && (if b = 0xf0 then c1 >= 0x90 && c1 <= 0xbf else if b = 0xf4 then c1 >= 0x80 && c1 <= 0x8f else c1 land 0xc0 = 0x80) -> go r
+    | _ -> false in
+  go (List.map int_of_z n)
+
+let has_suffix s suf = let n = String.length s and k = String.length suf in n >= k && String.sub s (n - k) k = suf
+
+(* [written]: the names that Serialize puts into the message *)
+let replay_badutf8 id what obs (written : z list list) =
+  count (what ^ "_badutf8_outside_domain");
+  if List.for_all valid_utf8 written then failwith (what ^ ": a -badutf8 case without an invalid name");
+  let ser = atom (arg0 "ser" obs) in
+  if ser <> "err" then
+    mismatch id (Printf.sprintf "%s: binary Serialize of a result with a name that is not valid UTF-8 is %s; proto3 Marshal refuses such strings (error)" what ser)
+
 (* big cases go through extracted list functions that are not tail recursive: run with a large stack *)
 let () =
   if Sys.getenv_opt "VERIF_DRIVER_STACK" = None then begin
@@ -244,6 +270,9 @@ let () =
         let wide m = (match m with r0 :: _ -> List.length r0 > 8200 | [] -> false) in
         let too_wide = wide b.bd_global || List.exists (fun (_, m) -> wide m) b.bd_files || List.exists wide b.bd_people in
         if too_wide then count "burndown_wide_oracle_only";
+        if has_suffix kind "-badutf8" then
+          replay_badutf8 id "burndown" obs (List.map fst b.bd_files @ List.filteri (fun i _ -> i < List.length b.bd_people) b.bd_names)
+        else
         replay ~skip_model:(xl || too_wide) id "burndown" obs ~enc:(fun () -> encode_burndown b) ~msg_of_sx:bmsg_of_sx ~dec:decode_burndown
           ~res_of_sx:burndown_of_sx ~in_domain:shape ~expected:(fun () -> expected) ~diff:bd_diff
           ~classify:(fun got ->
@@ -255,6 +284,7 @@ let () =
               "a file history without an ownership table comes back with an empty table (hand-made result; Finalize makes a table for every file history)"
             else "decoded result differs from the input beyond clamping in: " ^ d ^ bd_where expected got);
         (* text format *)
+        let shape = shape && not (has_suffix kind "-badutf8") in
         if xl then count "burndown_text_not_modelled_xl"
         else if too_wide then begin
           (* the list model of PrintMatrix is quadratic in the width of a row: only the shape oracle *)
@@ -287,6 +317,10 @@ let () =
     | "devs" ->
         let d = devs_of_sx r in
         let dom = shape_devs d && in_range_devs d in
+        let dom = dom && not (has_suffix kind "-badutf8") in
+        if has_suffix kind "-badutf8" then
+          replay_badutf8 id "devs" obs (d.dv_names @ List.concat_map (fun (_, ds) -> List.concat_map (fun (_, s) -> List.map fst s.dt_langs) ds) d.dv_ticks)
+        else
         replay ~skip_model:xl id "devs" obs ~enc:(fun () -> Ok (encode_devs d)) ~msg_of_sx:dmsg_of_sx ~dec:(fun m -> Ok (decode_devs m))
           ~res_of_sx:devs_of_sx ~in_domain:dom ~expected:(fun () -> d) ~diff:dv_diff
           ~classify:(fun got -> "decoded result differs from the input in: " ^ dv_diff d got ^ dv_where d got);
@@ -297,6 +331,9 @@ let () =
         let cp = couples_of_sx r in
         let dom = shape_couples cp && in_range_couples cp in
         let expected = normalise_couples cp in
+        let dom = dom && not (has_suffix kind "-badutf8") in
+        if has_suffix kind "-badutf8" then replay_badutf8 id "couples" obs (cp.cp_files @ cp.cp_names)
+        else
         replay ~skip_model:xl id "couples" obs ~enc:(fun () -> encode_couples cp) ~msg_of_sx:cmsg_of_sx ~dec:decode_couples
           ~res_of_sx:couples_of_sx ~in_domain:dom ~expected:(fun () -> expected) ~diff:cp_diff
           ~classify:(fun got -> "decoded result differs from the input (modulo the unnamed developers' file lists) in: " ^ cp_diff expected got
@@ -354,5 +391,6 @@ let () =
              if not (shape_okb m og) then propfail id "PrintMatrix: wrong number of rows or columns"
              else if og <> g then mismatch id "PrintMatrix tokens differ from the model"
          | Panic, [A "panic"] -> ()
+         | Ok _, [A "parsefail"] -> propfail id "PrintMatrix: a printed row is not a sequence of blank-separated integers (cells glued together)"
          | ms, _ -> mismatch id ("PrintMatrix outcome differs, model " ^ kind_of ms))
     | t -> failwith ("unknown result kind " ^ t))
